@@ -1,11 +1,15 @@
 """C11 - content negotiation and handler resolution (DESIGN.md section 3, C11).
 
-R1  score order by role (def-use roles of the match_score tuple, sentinel,
+R1  score order by role (def-use roles of the match_score tuple - of EVERY
+    return of a real score; literal components are decided from the
+    emptiness facts that dominate the return -, sentinel,
     quality()/best_match() wiring)
 R2  documented errors only (E5 summaries of quality/best_match, q validation)
 R3  cache coherence of falcon.media.Handlers over its whole MRO, including the
     running interpreter's UserDict / MutableMapping source (parsed, never
-    imported for behaviour)
+    imported for behaviour); after a BULK write (update, |=, dict.__init__,
+    comprehension or loop of stores - they can raise after storing some
+    items) the cache_clear() must be reached on the exceptional exits too
 R4  the resolution rule inside the resolver closure
 R5  client_accepts / client_prefers swallow ValueError
 
@@ -1441,6 +1445,32 @@ def _is_fresh_resolver(stmt, selfname='self') -> bool:
     return False
 
 
+def _cfg_with_raising_writes(f: Func, p, bulk_stmts):
+    """The CFG of `f` in which every bulk write has exceptional out-edges.  The shared CFG gives them only to
+    statements with a call / subscript load; `self.data |= other` has neither, yet dict.__ior__ runs arbitrary
+    code of `other`.  In that case a private CFG is built with those statements declared raising."""
+    cfg = cfg_of(f, p)
+
+    def lacking(c):
+        return [st for st in bulk_stmts if any(not any(l == 'exc' for _, l in c.succ[nid]) for nid in c.nodes_for(st))]
+
+    if not lacking(cfg):
+        return cfg
+    from .. import cfg as cfgmod
+    orig = getattr(cfgmod, '_may_raise_expr', None)
+    if orig is None or not hasattr(cfgmod, 'CFG'):
+        raise UnknownIdiom('%s: bulk write %s has no exceptional edges in the CFG' % (f.qual, short(lacking(cfg)[0], 60)))
+    ids = {id(st) for st in bulk_stmts}
+    cfgmod._may_raise_expr = lambda e: id(e) in ids or orig(e)
+    try:
+        private = cfgmod.CFG(f, p)
+    finally:
+        cfgmod._may_raise_expr = orig
+    if lacking(private):
+        raise UnknownIdiom('%s: bulk write %s has no exceptional edges in the CFG' % (f.qual, short(lacking(private)[0], 60)))
+    return private
+
+
 def r3_cache_coherence(run):
     p = run.project
     hc = p.cls(HANDLERS)
@@ -1500,9 +1530,9 @@ def r3_cache_coherence(run):
         if not sites:
             run.ok('%s changes the mapping only through the item protocol of self (or not at all)' % f.qual, f.loc())
             continue
-        cfg = cfg_of(f, p)
-        run.use_cfg(cfg)
         site_ids = {id(s): w for s, w in sites}
+        cfg = _cfg_with_raising_writes(f, p, [s for s, _ in sites if H.site_kind.get(id(s)) == 'bulk'])
+        run.use_cfg(cfg)
         sn = d.selfname
 
         kinds = {k: H.site_kind.get(k, 'item') for k in site_ids}
@@ -2129,9 +2159,9 @@ class _ModFunc:
 def check(run):
     run.assume('E5: str/bytes/re/dict.get methods and in-range subscripts are total; unresolved external callees do not raise unless tabled')
     run.assume('functools.lru_cache wrappers re-raise exactly what the wrapped function raises')
-    run.rule('R1', _safe(r1_score_order), 'match_score tuple order by def-use role, sentinel, quality()/best_match() wiring', floor=17)
+    run.rule('R1', _safe(r1_score_order), 'match_score tuple order by def-use role on every score return, sentinel, quality()/best_match() wiring', floor=17)
     run.rule('R2', _safe(r2_documented_errors), 'only InvalidMediaType/InvalidMediaRange escape quality()/best_match(); q validated', floor=4)
-    run.rule('R3', _safe(r3_cache_coherence), 'every direct writer of Handlers.data in the MRO clears the resolver cache; resolver per instance', floor=20)
+    run.rule('R3', _safe(r3_cache_coherence), 'every direct writer of Handlers.data in the MRO clears the resolver cache (bulk writers on exceptional exits too); resolver per instance', floor=20)
     run.rule('R4', _safe(r4_resolution), 'resolver: default fallback, exact first, best match over current keys, 415 iff unmatched and asked', floor=8)
     run.rule('R5', _safe(r5_client_negotiation), 'client_accepts/client_prefers map ValueError to False/None', floor=5)
     run.rule('R6', _safe(r6_memo_results_immutable), 'values handed out by memoised parsing helpers are never mutated by their callers', floor=1)
